@@ -3,7 +3,7 @@
 import os, re, subprocess, time
 R = os.path.dirname(os.path.dirname(os.path.abspath(__file__)))
 def rd(p):
-    try: return open(os.path.join(R, "build", p)).read().splitlines()
+    try: return open(os.path.join(os.environ.get("VALIDATION_BUILD", os.path.join(R, "build")), p)).read().splitlines()
     except Exception: return []
 out = ["# Last full validation run", "",
        "Produced by `tools/validate_all.sh` (logs in `build/`, not committed) and summarised by `tools/mkvalidation.py`.", ""]
